@@ -160,7 +160,7 @@ static void setTimeouts(int fd, int rcvMs, int sndMs) {
 }
 
 // one raw client session.  s: {"hex": bytes, "chunks":[[hex, delay_ms_before],...], "end": read|half|reset,
-//                             "close_delay_ms": n, "rcv_ms": n}
+//                             "close_delay_ms": n, "rcv_ms": n, "read_delay_ms": n (pause before the first recv)}
 static SessRes runSession(const std::string& path, const Json::Value& s) {
   SessRes r;
   auto t0 = Clock::now();
@@ -225,6 +225,9 @@ static SessRes runSession(const std::string& path, const Json::Value& s) {
   }
   if (end == "half") {
     ::shutdown(fd, SHUT_WR);
+  }
+  if (s.get("read_delay_ms", 0).asInt() > 0) {
+    std::this_thread::sleep_for(std::chrono::milliseconds(s["read_delay_ms"].asInt()));
   }
   char buf[4096];
   for (;;) {
